@@ -88,7 +88,8 @@ def add_ecs(cube, ecs, shape, voff=0.0, ishift=None):
         if kind == "quantity":
             cube.extra_coords.add(nm[0], axes[0], v * u.m, physical_types=f"custom:q{k}")
         elif kind == "time":
-            cube.extra_coords.add(nm[0], axes[0], T0 + v * u.min)
+            # (Time tables in the usual scales, by table position: instants matter, not clock readings)
+            cube.extra_coords.add(nm[0], axes[0], Time(T0.isot, scale=["utc", "tai", "tt"][k % 3]) + v * u.min)
         elif kind == "sky1":
             cube.extra_coords.add(tuple(nm), axes[0], SkyCoord(v * u.deg / 10, (v / 2 - 5) * u.deg / 10, frame="icrs"), mesh=False)
         elif kind == "quantity2":
